@@ -11,6 +11,10 @@ set_option linter.unusedSimpArgs false
 namespace Rrtk.Thm.C11
 open Rrtk
 
+/-- `Int` as a scalar, used only by the non-vacuity `example`s below (`/` is integer division, so the example
+timestamps are multiples of 2·10⁹ ns) -/
+local instance : FloatLike Int := ⟨fun n => n, fun n => n, fun _ _ => 1, fun n => n.natAbs⟩
+
 section S
 variable {F : Type} [Add F] [Sub F] [Mul F] [Div F] [Neg F] [LT F] [LE F] [BEq F]
   [DecidableLT F] [DecidableLE F] [FloatLike F]
@@ -296,6 +300,29 @@ theorem cpid_absent_prefix_acceleration (chk : Bool) (k : PIDK3 F) (s : CpidS F)
     · simp [h3]; omega
     · simp [h3]; omega
 
+/-! non-vacuity / concrete instances for part A (payloads in `Int`) -/
+def exK : PIDK3 Int := ⟨⟨1, 2, 3⟩, ⟨2, 1, 4⟩, ⟨3, 1, 2⟩⟩
+def exXs : List (Datum (State Int)) :=
+  [⟨0, ⟨1, 2, 3⟩⟩, ⟨2000000000, ⟨3, 4, 1⟩⟩, ⟨4000000000, ⟨6, 5, 2⟩⟩, ⟨6000000000, ⟨8, 9, 4⟩⟩]
+example : Fresh (Cpid.init (.position (10 : Int))) := .inl rfl
+example : Fresh (⟨.velocity (10 : Int), .error (.other 3), none⟩ : CpidS Int) := .inr ⟨_, rfl⟩
+example : exXs ≠ [] := by decide
+example : (Cpid.init (.position (10 : Int))).command.kind = .position := rfl
+example : (Cpid.init (.velocity (10 : Int))).command.kind = .velocity := rfl
+example : (Cpid.init (.acceleration (10 : Int))).command.kind = .acceleration := rfl
+/-- hypotheses of `step_spec` hold after the first sample -/
+example : (Cpid.stepInput true exK (Cpid.init (.velocity 10)) (.ok (some ⟨0, ⟨1, 2, 3⟩⟩))).1.us =
+    .ok (specU0 true exK (.velocity 10) [⟨0, ⟨1, 2, 3⟩⟩]) := rfl
+/-- position: e = 9,7,4,2; dt = 2; I₃ = 32, D₃ = −1, u₃ = 1·2 + 2·32 + 3·(−1) = 63 -/
+example : Cpid.get (feed true exK (Cpid.init (.position 10)) exXs) = .ok (some ⟨6000000000, 63⟩) := by rfl
+example : specOut true exK (.position 10) exXs.reverse = .ok (some ⟨6000000000, 63⟩) := by rfl
+example : Cpid.get (feed true exK (Cpid.init (.velocity 10)) exXs) = .ok (some ⟨6000000000, 144⟩) := by rfl
+example : specOut true exK (.velocity 10) exXs.reverse = .ok (some ⟨6000000000, 144⟩) := by rfl
+example : Cpid.get (feed true exK (Cpid.init (.acceleration 10)) exXs) = .ok (some ⟨6000000000, 674⟩) := by rfl
+example : specOut true exK (.acceleration 10) exXs.reverse = .ok (some ⟨6000000000, 674⟩) := by rfl
+example : Cpid.get (feed true exK (Cpid.init (.acceleration 10)) (exXs.take 2)) = .ok none := by rfl
+example : Cpid.get (feed true exK (Cpid.init (.velocity 10)) (exXs.take 1)) = .ok none := by rfl
+
 /-! ### B. `set` -/
 
 /-- `lastRequest` is write-only for `update`: changing it commutes with `stepInput` -/
@@ -402,6 +429,16 @@ theorem cpid_reset_restarts (chk : Bool) (k : PIDK3 F) (s : CpidS F) :
 /-- a newly constructed controller is fresh -/
 theorem cpid_init_fresh (c : Command F) : Fresh (Cpid.init c) ∧ Cpid.get (Cpid.init c) = .ok none := ⟨.inl rfl, rfl⟩
 
+/-! non-vacuity for part B -/
+example : Command.beq (.velocity (10 : Int)) (Cpid.init (.velocity (10 : Int))).command = true := by decide
+example : Command.beq (.velocity (11 : Int)) (Cpid.init (.velocity (10 : Int))).command = false := by decide
+example : Command.beq (.position (10 : Int)) (Cpid.init (.velocity (10 : Int))).command = false := by decide
+/-- a same-command `set` in the middle of a run does not disturb it; a differing one restarts it -/
+example : Cpid.get (feed true exK (Cpid.set (feed true exK (Cpid.init (.velocity 10)) (exXs.take 2)) (.velocity 10))
+    (exXs.drop 2)) = .ok (some ⟨6000000000, 144⟩) := by rfl
+example : Cpid.get (feed true exK (Cpid.set (feed true exK (Cpid.init (.velocity 10)) (exXs.take 2)) (.velocity 11))
+    (exXs.drop 2)) = specOut true exK (.velocity 11) (exXs.drop 2).reverse := by rfl
+
 /-! ### C. absent input -/
 
 /-- an absent input resets the computation from any state: `update` returns `Ok`, the output is absent, and the state
@@ -499,6 +536,20 @@ theorem cpid_err_ended_by (chk : Bool) (k : PIDK3 F) (s : CpidS F) (c : Command 
     (Cpid.reset s).us = .ok none :=
   ⟨rfl, by simp [Cpid.set, hc], rfl⟩
 
+/-! non-vacuity for part D -/
+example : ∀ ev ∈ ([.set (.velocity 10), .input (.ok none) (some (.error .fromNone)), .set (.velocity 10)] : List (Ev Int)),
+    Keeps (⟨.velocity 10, .error (.other 3), none⟩ : CpidS Int).command ev := by
+  intro ev hev
+  simp only [List.mem_cons, List.not_mem_nil, or_false] at hev
+  rcases hev with rfl | rfl | rfl
+  · show Command.beq _ _ = true; decide
+  · exact trivial
+  · show Command.beq _ _ = true; decide
+example : ∀ e', (none : Option (Output (Command Int))) ≠ some (.error e') := by intro e' h; cases h
+example : Cpid.get (run true exK (Cpid.init (.velocity 10))
+    [.input (.ok (some ⟨0, ⟨1, 2, 3⟩⟩)) none, .input (.error (.other 3)) none, .set (.velocity 10),
+     .input (.ok none) (some (.error .fromNone))]) = .error (.other 3) := by rfl
+
 /-! ### E. following -/
 
 /-- following a present command is `set` of its value followed by the plain update; following an absent value, or not
@@ -586,6 +637,13 @@ theorem cpid_chk_irrelevant (k : PIDK3 F) (s : CpidS F) (inp : Output (State F))
       (x.value.getValue true kd).value = (x.value.getValue false kd).value := by
     intro x kd; cases kd <;> rfl
   simp only [Cpid.stepInput, hv]
+
+/-! non-vacuity for part F: different gain tables agreeing on the selected triple; different states agreeing on the
+selected component -/
+example : exK.get (Cpid.init (.velocity (10 : Int))).command.kind =
+    (⟨⟨7, 7, 7⟩, ⟨2, 1, 4⟩, ⟨9, 9, 9⟩⟩ : PIDK3 Int).get (Cpid.init (.velocity (10 : Int))).command.kind := rfl
+example : ((⟨5, ⟨1, 2, 3⟩⟩ : Datum (State Int)).value.getValue true (Cpid.init (.velocity (10 : Int))).command.kind).value =
+    ((⟨5, ⟨8, 2, 9⟩⟩ : Datum (State Int)).value.getValue true (Cpid.init (.velocity (10 : Int))).command.kind).value := rfl
 
 /-! ### G. time-shift invariance -/
 
@@ -887,6 +945,13 @@ theorem cpid_eq_spec_events (chk : Bool) (k : PIDK3 F) (c : Command F) (evs : Li
       exact ih _ _ (rel_applyEv chk k s a h ev)
   have h := key evs (Cpid.init c) ⟨c, .running []⟩ ⟨rfl, rfl⟩
   exact ⟨h, get_of_rel chk k _ _ h⟩
+
+/-! concrete instance for part G and for the event-level theorem -/
+example : Cpid.get (feed true exK (Cpid.init (.acceleration 10)) (exXs.map (shiftD 12345))) =
+    .ok (some ⟨6000012345, 674⟩) := by rfl
+example : absOut true exK (([.input (.ok (some ⟨0, ⟨1, 2, 3⟩⟩)) none, .input (.error (.other 3)) none,
+    .set (.velocity 10), .input (.ok none) (some (.error .fromNone))] : List (Ev Int)).foldl absEv
+      ⟨.velocity 10, .running []⟩) = .error (.other 3) := by rfl
 
 end S
 end Rrtk.Thm.C11
